@@ -3,7 +3,7 @@ EXTENDS RemoteClient
 Keys2 == {1, 2}
 NoFix == {}
 AllFix == {"rejectnohash"}
-View == <<ep, acc, hs, nextId, calls, sent, order, queue, stale, srv, deliv, run, steps, had>>
+View == <<ep, acc, hs, nextId, calls, sent, order, queue, stale, srv, deliv, run, steps, had, carry>>
 SubsFew == {"subscribe_tx"}      \* the exhaustive configurations use one of the ten subscription messages
 SubsAll == SubNames
 ====
